@@ -182,6 +182,8 @@ def check(kind, iface, history):
 
 
 def replay(inputs):
+    if inputs.get("tz"):
+        return {"violated": check_tz(inputs["tz"]), "region": None}
     v, region = check(inputs["kind"], inputs["iface"], [tuple(e) for e in inputs["history"]])
     return {"violated": v, "region": region}
 
@@ -199,6 +201,34 @@ def replay_family(inputs):
             if v and region is None:
                 out.append("%s: %s" % (h, v[0]))
     return {"violated": out[:5]}
+
+
+def tz_probe():
+    """runs in a subprocess with TZ set (see check_tz): the date validator is a GMT date, whatever the local zone - the core
+    single-modification histories with the date forms"""
+    out = []
+    for kind in ("Files", "Pages"):
+        for iface in ("wsgi", "asgi"):
+            for m in (("rewrite_same", 2), ("touch", 1), ("rewrite_other", 3), None):
+                for form in ("date", "both", "stale_etag_and_date", "etag"):
+                    h = [("get",)] + ([m] if m else []) + [("cond", 0, form)]
+                    v, region = check(kind, iface, h)
+                    if v and region is None:
+                        out.append("%s %s %s: %s" % (kind, iface, h, v[0]))
+    return out[:5]
+
+
+def check_tz(tz):
+    import json as _json
+    import subprocess
+    import sys
+    here = os.path.dirname(os.path.dirname(os.path.abspath(__file__)))
+    env = dict(os.environ, TZ=tz, PYTHONPATH=os.environ.get("VERIF_REPO", "/repo") + ":" + here)
+    p = subprocess.run([sys.executable, "-c", "import json, time; time.tzset(); from native import c14; print(json.dumps(c14.tz_probe()))"],
+                       capture_output=True, text=True, env=env, timeout=120, cwd=here)
+    if p.returncode:
+        return ["probe failed under TZ=%s: %s" % (tz, p.stderr[-300:])]
+    return ["TZ=%s: %s" % (tz, x) for x in _json.loads(p.stdout)]
 
 
 def bounded(tier, seed):
@@ -234,6 +264,13 @@ def bounded(tier, seed):
                                      "violated": v})
                 elif len(samples) < 3 and len(h) > 4:
                     samples.append({"kind": kind, "iface": iface, "history": h})
+    # the same core histories with the serving process in zones west and east of UTC (POSIX TZ rules)
+    for tz in ("EST5EDT,M3.2.0,M11.1.0", "PST8PDT", "CET-1CEST,M3.5.0,M10.5.0/3", "UTC0"):
+        evals += 64
+        v = check_tz(tz)
+        distinct.add(("tz", tz))
+        if v:
+            failures.append({"inputs": {"kind": "Files", "iface": "wsgi", "history": [], "region": None, "tz": tz}, "violated": v})
     return {"evaluations": evals, "distinct_nontrivial": len(distinct), "failures": failures, "samples": samples,
             "rule": "histories over {rewrite same size, rewrite other size, touch} x clock advance {0, >=1 s}, plain GET, and "
                     "conditional GET with the validators of response j in the forms %s; all single-modification histories, all "
